@@ -23,11 +23,14 @@
      c20_ip_prefix_bound           the parser establishes prefix <= width (the invariant the subtraction relies on)
      c20_ip_prefix_needed          ... and without it the subtraction would panic (the invariant is not vacuous)
      c20_display_extn_no_panic     est display of {"__extn":{"fn","args"}}: no panic for any function and arity
+     c20_policyset_core_no_panic / c20_policyset_history_no_panic   the panic!() sites of PolicySet::{link, unlink,
+                                   remove_template} (outcome EPanic of model/PolicySet.v, tied to the code by C08's check)
+                                   are unreachable under C08's invariant, hence along every API history
      c20_display_extn_old_refuted  the code before fix 3dd4acc panicked exactly on a method-style call with no
                                    arguments (finding F-b), and the repaired code agrees with it elsewhere        *)
 From Coq Require Import List ZArith NArith Bool String.
 Import ListNotations.
-From Cedar Require Import NoPanic NoPanicProofs NoPanicLike.
+From Cedar Require Import NoPanic NoPanicProofs NoPanicLike PolicySet PolicySetWF NoPanicPolicySet.
 
 Theorem c20_levenshtein_no_panic : forall w1 w2 : str, exists n, levenshtein w1 w2 = POk n.
 Proof. exact levenshtein_no_panic. Qed.
@@ -82,6 +85,22 @@ Theorem c20_display_extn_old_refuted :
      extn_multi_layout_old ms args = POk l -> extn_multi_layout ms args = POk l).
 Proof. exact (conj extn_layout_old_panics_iff extn_layout_agrees_with_old). Qed.
 Print Assumptions c20_display_extn_old_refuted.
+
+(* The panic!() sites of the policy-set bookkeeping ("template_to_links_map missing a template key", "policy id exists in
+   asts but not ests", ...), modelled in model/PolicySet.v as the outcome `OErr EPanic`:
+   unreachable under C08's well-formedness invariant ... *)
+Theorem c20_policyset_core_no_panic : forall s i, WF s ->
+  ps_unlink s i <> OErr EPanic /\ ps_remove_template s i <> OErr EPanic.
+Proof. exact (fun s i W => conj (ps_unlink_no_panic s i W) (ps_remove_template_no_panic s i W)). Qed.
+Print Assumptions c20_policyset_core_no_panic.
+
+(* ... hence at every step of every (merge-free) history of cedar_policy::PolicySet operations from the empty set.
+   (Without the invariant the site IS reachable: c08_wf_refuted_without_it / finding C08:link-to-static-policy-body.) *)
+Theorem c20_policyset_history_no_panic : forall pre o,
+  Forall no_merge pre -> no_merge o ->
+  fst (snd (api_step (run_ops api_step pre empty_h) o)) <> OErr EPanic.
+Proof. exact api_history_no_panic. Qed.
+Print Assumptions c20_policyset_history_no_panic.
 
 (* non-vacuity: concrete runs through every site *)
 Example c20_examples :
